@@ -12,25 +12,49 @@ META = {
             "in values (the pinned go-text reader drops ':' and skips one-field lines: counter-witnesses proved), rectangularity for all inputs. "
             "Fixed-length with explicit delimiter positions - refuse_or_spell (error iff positions do not increase or a text exceeds its column), round trip "
             "under 'no text contains CR/LF' for every byte-width function with width(' ') = 1, rectangularity for all inputs and positions. "
+            "Fixed-length with AUTOMATIC positions - the writer's measure pass (width = largest byte size per column, running-sum positions, one blank "
+            "between fields, padding by alignment) and go-text's Delimiter.Delimit heuristic as it is (Csvq.Model.FixedAuto: blank runs per line, "
+            "NextSpaceEnd / PrevSpaceStart / CountColumnStatus / searchPosition); fixed_auto_roundtrip: a table whose cells and written header names are "
+            "non-empty and contain no white space, and whose fields in every column but the first begin at the first byte of the column (left-aligned or "
+            "as wide as the column), written with LF or CR LF, reads back - positions detected from the text alone - as the canonical table; the "
+            "positions found are the column-wise largest value ends; counter-witnesses outside the predicate (right-aligned numbers of different "
+            "lengths under a shorter header in a later column are split; inner blank; all-empty column). "
             "JSON and JSON Lines - model of go-text/json escaping (Escape / EscapeWithHexDigits / EscapeAll / EncodeRune / Unescape incl. surrogate "
             "pairs and invalid escapes), of Scanner.scanString, of the value <-> structure mapping (ParseValueToStructure / ConvertToValue), of the "
             "scanner + the grammar of parser.y (recursive descent) and of the table mapping for flat column names; proved: unescape(escape t s) = s for "
             "all three escape types and ALL code-point strings; the string token is read back unless the Backslash type meets a text ending in a "
             "backslash (counter-witness proved); the value round trip with its exact image (Integer -> Float text, Datetime -> String, Ternary -> "
             "Boolean/NULL, NaN/Inf -> NULL); the table round trip on TOKENS for JSON and JSON Lines (distinct flat column names, >= 1 record), "
-            "rectangularity for ALL input texts, no shift; counter-witnesses for the empty table and for the String that is itself JSON text. "
-            "Not proved, covered by correspondence / law checks only: the step characters -> tokens for punctuation, literals and numbers (numbers are "
-            "opaque atoms with a harness-supplied strconv profile), pretty printing, the embedding of JSON-looking strings, nested column paths (a.b), "
-            "fixed-length automatic delimiter positions (a heuristic), the transcoders (UTF-8/UTF-8 BOM/UTF-16/Shift_JIS), and the 'updated file "
-            "keeps its dialect' clause. "
+            "rectangularity for ALL input texts, no shift; counter-witnesses for the empty table and for the String that is itself JSON text; "
+            "the character level: json_scan_print - for every well-formed value (strings the scanner can delimit and that are not themselves JSON "
+            "arrays/objects, number literals in every RFC 8259 spelling that are fixed points of the strconv profile) and all three escape types the "
+            "printed characters scan to exactly the value's tokens, hence json_table_roundtrip_text / jsonl_table_roundtrip_text from text to text. "
+            "JSON column names as paths (a.b -> nested objects; Csvq.Model.JsonPath = lib/json Path.Parse + addPathValueToRowStructure): "
+            "json_paths_roundtrip - paths none of which is a prefix of another: the nested record holds exactly the (path, value) pairs of the table's "
+            "record and every value is found at its path; json_flat_names (names without '.' and backslash = the flat writer); counter-witnesses: `a`,`a.b` "
+            "refused, `a.b`,`a` and `a`,`a` write a duplicate key, `a..b` / `.a` / `a.` syntax errors, a backslash that starts a segment escapes nothing. "
+            "Transcoding - every round-trip theorem carries over to bytes through ANY encoder/decoder pair with dec(enc s) = s (roundtrip_encoded, "
+            "csv/ltsv/fixed/json_roundtrip_encoded; refused_encoded: nothing written iff the writer or the encoding refuses); real Lean models of UTF-8, "
+            "UTF-8 with BOM (BOMOverride) and UTF-16 BE/LE with ExpectBOM / IgnoreBOM / UseBOM exactly as golang.org/x/text does them (incl. its "
+            "surrogate and trailing-byte replacement rules), proved sound for ALL texts (utf8_roundtrip, utf8m_roundtrip, utf16_roundtrip: all scalar "
+            "values, surrogate pairs; utf16_usebom_roundtrip for texts not beginning with U+FEFF/U+FFFE, counter-witness proved); Shift_JIS stays an "
+            "abstract sound pair. "
+            "Not proved, covered by correspondence / law checks only: pretty printing, the embedding of JSON-looking strings (modelled, not in the "
+            "theorems), the Shift_JIS tables, fixed-length automatic positions outside the predicate (a heuristic), and the 'updated file keeps its "
+            "dialect' clause. "
             "REGENERATED from /repo on every run (extract/encfacts, go/ast -> Csvq/Gen/EncFacts.lean): the Quote decision of encodeCSV for record and "
             "header fields as Lean functions (gen_cell_quote_eq_model / gen_header_quote_eq_model: equal to the model's mustQuote for all inputs), "
             "jsonLineBreakDetector.scan / LineBreak translated statement by statement (gen_detector_first_line_break: first line break outside strings "
             "for ALL byte strings; gen_detector_chunks / gen_detector_reads: independent of how the bytes are cut into reads), and as fact lists "
             "proved equal to the reviewed ones: the options that reach the csv/ltsv/fixedlen writers, ConvertFieldContents per value type, "
-            "EncodeEndingLineBreak, the attribute mapping of FileInfo.ExportOptions, every store of the five loaders into FileInfo. "
+            "EncodeEndingLineBreak, the attribute mapping of FileInfo.ExportOptions, every store of the five loaders into FileInfo, and from the go-text "
+            "module the tree's go.mod pins: fixedlen Measure / GeneratePositions / the InsertSpace separator / addField's padding by alignment "
+            "(gen_fixedlen_eq_ref). "
             "Models tied to /repo on every run: model-encode = real EncodeView bytes (CSV/TSV/LTSV/fixed/JSON compact+pretty/JSONL), model-decode = "
             "real loader on arbitrary bytes (incl. generated and mutated JSON texts), model escape/unescape = go-text functions on code-point strings, "
+            "model Delimit = fixedlen.Delimiter.Delimit and model automatic-position loader = real loader on written, mutated and hand-laid-out texts "
+            "(c02.fpos, c02.deca), model transcoders = text.Encode / text.Decode on generated texts, mutated encodings and byte soup for the seven Unicode "
+            "encodings (c02.tenc, c02.tdec; law transcode:<ENC>:roundtrip), path-named JSON columns in the jenc stream (refusals included), "
             "plus the write-then-read law on the real code alone for all six formats",
     "design_ref": "DESIGN.md section 5, C02",
     "note": "trusted: Lean kernel (axioms propext, Classical.choice, Quot.sound only); harness + driver; golang.org/x/text transcoders and go-text "
@@ -45,10 +69,11 @@ def run(run):
     run.assumptions += [
         "JSON numbers are opaque atoms: for every number literal the harness supplies what strconv makes of it (ParseFloat then FormatFloat 'f'; "
         "'!' when ParseFloat fails); the JSON theorems quantify over all such profiles and assume AtomOK (the written decimal text is a fixed point)",
-        "JSON column names are flat (no '.', no backslash): one object member per column; code points U+E002..U+E007 outside strings (goyacc's "
-        "private token numbers) are not modelled",
-        "text is modelled after transcoding (List Char): dec(enc s) = s for encodable s is assumed of golang.org/x/text; the harness checks the composed "
-        "behaviour for UTF-8, UTF-8 with BOM, UTF-16 (BE/LE, with and without BOM) and Shift_JIS by the write-then-read law",
+        "the JSON table round-trip theorems are for flat column names (no '.', no backslash: json_flat_names links them to the path-aware writer); code "
+        "points U+E002..U+E007 outside strings (goyacc's private token numbers) are not modelled",
+        "the format theorems are about texts (List Char); bytes enter through a codec with dec(enc s) = s, proved of the UTF-8 / UTF-8 BOM / UTF-16 models, "
+        "assumed of golang.org/x/text's Shift_JIS; the harness compares the Unicode models with go-text and checks the composed behaviour for all "
+        "encodings by the write-then-read law",
         "the delimiter is none of '\"', CR, LF (DelimOK); cell texts of Integer/Float/Boolean/Datetime values are what ConvertFieldContents returns",
         "CSV reader: all reader errors are one error value (messages are not compared); Go's rune look-ahead after CR is modelled by a pending-CR state",
         "csv_roundtrip (quoteLB = true) is the theorem cited for the code: the model writer is run with that rule, the real writer is probed on every run "
@@ -80,7 +105,12 @@ def run(run):
              "JSON Lines files whose first line break lies at the buffer boundaries of the readers (first record of 2047..12288 bytes, CRLF / LF / CR; "
              "detected line break = model (op c02.jlb), dialect kept through UPDATE + COMMIT), the REAL line-break detector (hook query.VerifJsonLineBreak) on random byte strings weighted towards "
              "quotation marks, backslashes, CR, LF, CRLF: the whole text = model Json.firstBreak (op c02.jlb), and every two-way cut, byte-by-byte reads with "
-             "empty reads, cuts after every CR / backslash / quotation mark and random cuts = the single read (law json_line_break_chunk_dependent), the commit histories (a COMMIT refused by an unspellable cell after "
+             "empty reads, cuts after every CR / backslash / quotation mark and random cuts = the single read (law json_line_break_chunk_dependent), "
+             "fixed-length texts read with AUTOMATIC positions (written with automatic positions, mutated, hand-laid-out word columns with mixed alignment, "
+             "character soup: positions of fixedlen.Delimiter.Delimit = model, loaded table = model), transcoding (random texts over all planes incl. U+FEFF / "
+             "U+FFFE / astral: bytes of text.Encode = model for UTF8, UTF8M, UTF16, UTF16BE/LE, UTF16BEM/LEM; text.Decode of the written bytes, of mutations "
+             "and of byte soup with lone surrogates, BOMs, odd lengths, ill-formed UTF-8 = model; law transcode:<ENC>:roundtrip), JSON column names as "
+             "paths (prefixes of one another, duplicates, escapes, empty segments: written bytes or refusal = model), the commit histories (a COMMIT refused by an unspellable cell after "
              "more than 4 KiB of records, repair + DELETE, COMMIT again: committed bytes = those of a control run without the refused attempt; LTSV, "
              "fixed-length, CSV/TSV in Shift_JIS), then generated (incl. a share of refusal injections at random positions): "
              "tables of 0-50 rows x 1-6 columns, plus a size band of 280-700 records x 2-3 short columns around the loaders' prepared capacity "
